@@ -733,7 +733,7 @@ func run(c *lib.Ctx) {
 		"non-trivial = tree with a proof path of >=2 inner nodes, >=1 honest proof verified, >=1 mutation rejected and >=1 fuzz input, measured")
 	c.Assume("sha256 second preimages are not found by the generators", "GetKVPairProof is only required to be total on committed roots; crash-freedom is decided for VerifyKVPairProof",
 		"a mutated proof that still verifies the unchanged true (key,value,root) is not a violation (ignored proof fields: leafHash/rootHash fields, bytes before the last 32 of a sibling hash, the unused side of an inner node)")
-	n := c.N(30, 600)
+	n := c.N(30, 400)
 	fuzz := c.N(420, 420)   // per (tree, cfg): quick 30*4*420 = 50k
 	mutKeys := c.N(10, 10) // per version
 	var idxs []int
